@@ -16,7 +16,7 @@ TEMPLATES = {
     "plain": V3 + 'enum Mode { Off = 0, On = 1, Err = -5, }\n'
                   'struct Inner { p @0: u5, q @1: Mode, }\n'
                   'struct Msg {\n    a @0: u8 | unit("C"),\n    b @1: f32 | range(0.5, 10.25),\n'
-                  '    c @2: Optional[[Inner, 2]] | unit("m/s") range(-1.5, 2.5),\n    d @3: [str],\n    e @7: Inner,\n    g @8: [Optional[u16], 3],\n    h @9: [[[i4, 2]], 2],\n}\n',
+                  '    c @2: Optional[[Inner, 2]] | unit("m/s") range(-1.5, 2.5),\n    d @3: [str],\n    e @7: Inner,\n    g @8: [Optional[u16], 3],\n    h @9: [[[i4, 2]], 2],\n    i @10: [[u8, 4], 3],\n}\n',
     "bindings": V3 + 'struct A { x @0: u16, y @1: i7, }\nstruct B { z @0: f64, }\n'
                      'impl can for A {\n    id: 10,\n    device: "ecu",\n    signal x {\n        mux_count: 4,\n'
                      '        mux_signal: "y",\n    },\n    signal y {\n        endianess: "big",\n    },\n}\n'
